@@ -324,6 +324,11 @@ CORPUS = [
 CORPUS.append({"grid": _NG0, "uo": "mm/d", "ui": "mm/d", "mask": "flex", "in_mask": "same",
                "ops": [["push", 86400000000, _p([], [0], "qty_masked", mask=[False], units="m/s")], ["pull", 86400000000],
                        ["push", 86400000001, _p([], [16], "qty_masked", mask=[True], units="m/s")], ["pull", 86400000001]]})
+# witness of KNOWN finding F21: converting a fully masked 0-d quantity yields numpy's np.ma.masked singleton, so the second
+# such publication "shares memory" with the first although the caller's buffers are distinct (finam refuses it)
+CORPUS.append({"grid": _NG0, "uo": "km/h", "ui": "km/h", "mask": "flex", "in_mask": "flex",
+               "ops": [["push", 0, _p([], [8], "qty_masked", mask=[True], units="mm/d")],
+                       ["push", 5, _p([], [16], "qty_masked", mask=[True], units="mm/d")], ["pull", 5]]})
 # witness of finding F10 (fixed by bb44bc1): flat plain payload + fixed mask + F-ordered grid, the mask must sit on cell [0,1]
 CORPUS.append({"grid": _UF, "uo": "m", "ui": "m", "mask": [False, True, False, False, False, False], "in_mask": "same",
                "ops": [["push", 0, _p([6], [0, 8, 16, 24, 32, 40])], ["pull", 0],
@@ -680,7 +685,42 @@ def _is_f9(case, obs, failure):
     return any(ev["op"] == "push" and len(ev["payload"]["shape"]) == 1 and ev["payload"]["mask"] is None for ev in obs["events"])
 
 
-classifiers = {"flat_payload_fixed_mask_F_order": _is_f9}
+def _needs_conversion(u, uo):
+    return u is not None and u in UNIT_TABLE and uo in UNIT_TABLE and UNIT_TABLE[u][0] == UNIT_TABLE[uo][0] and UNIT_TABLE[u][1:] != UNIT_TABLE[uo][1:]
+
+
+def _masked_scalar_converted(p, uo):
+    return p["shape"] == [] and p["mask"] == [True] and _needs_conversion(p["units"], uo)
+
+
+def _f21_events(case, obs):
+    """push events refused with DataError where the refused payload and the previously stored publication are both 0-d, fully
+    masked quantities that prepare() has to convert (both become the np.ma.masked singleton), buffers really distinct"""
+    hits, prev = [], None
+    for ev in obs.get("events", []):
+        if ev["op"] != "push":
+            continue
+        p = ev["payload"]
+        if ev["res"] == "ok":
+            prev = p
+        elif (ev["res"] == "DataError" and prev is not None and not ev["really_shares"]
+              and _masked_scalar_converted(p, case["uo"]) and _masked_scalar_converted(prev, case["uo"])
+              and not (p["buf"] is not None and prev["buf"] is not None and p["buf"][0] == prev["buf"][0]
+                       and p["buf"][1] < prev["buf"][2] and prev["buf"][1] < p["buf"][2])):
+            hits.append(ev["t"])
+    return hits
+
+
+def _is_f21(case, obs, failure):
+    hits = _f21_events(case, obs)
+    if not hits:
+        return False
+    if failure == "correspondence":
+        return True
+    return any(str(failure).startswith(f"push at t={t}: valid payload") for t in hits)
+
+
+classifiers = {"flat_payload_fixed_mask_F_order": _is_f9, "fully_masked_scalar_conversion_singleton": _is_f21}
 
 
 def distribution(cases, obss):
